@@ -184,6 +184,10 @@ def c19(tier, seed, only):
     jobs = []
     for h in ctor_heights:
         jobs.append(dict(key="stack_ctor", params=dict(height=h), label=f"ctor/H={h}", serial=True))
+        if h in (4, 255, 256, 257):
+            jobs.append(dict(key="stack_ctor", params=dict(height=h, cons="shaving"), label=f"ctor/H={h}/shaving", serial=True))
+            jobs.append(dict(key="stack_ctor", params=dict(height=h, cons="shaving", heur="mid_value"), label=f"ctor/H={h}/shaving/mid_value", serial=True))
+            jobs.append(dict(key="stack_ctor", params=dict(height=h, heur="mid_value"), label=f"ctor/H={h}/mid_value", serial=True))
     for h in heights:
         for heur in heurs:
             if only and heur not in only:
